@@ -53,15 +53,28 @@ type Env struct {
 	E3  []*v3.Environmental // receiver per thread slot (all the same pointer in shared mode)
 	E2  []*v2.Environmental
 	Rep []*report.EnvironmentalReport // report per thread slot (one object in shared mode), already exported once
+	// Twin: every slot has an object of its own, but all slots work on the SAME inputs (slot 0's
+	// vector, rejected strings and template text): whatever the library keys by input text or by
+	// metric values — a decode cache, an intern table, a parsed-template cache — is then hit under
+	// one key from every thread at once (fill races, publication before initialisation).
+	Twin bool
+}
+
+// K is the input index of a thread slot: the slot itself, or 0 for every slot in twin mode.
+func (e *Env) K(slot int) int {
+	if e.Twin {
+		return 0
+	}
+	return slot
 }
 
 const warmTemplate = "{{.Version}} warm-up {{.BaseScore}}"
 
 // NewEnv decodes the receivers: shared => every slot uses one object.
-func NewEnv(slots int, shared bool) *Env {
-	e := &Env{}
+func NewEnv(slots int, shared bool, twin ...bool) *Env {
+	e := &Env{Twin: len(twin) > 0 && twin[0]}
 	for i := 0; i < slots; i++ {
-		k := i
+		k := e.K(i)
 		if shared {
 			k = 0
 		}
@@ -207,7 +220,7 @@ func bulkVec2(slot, k int) string {
 var Ops = []Op{
 	{"v3 decode accepted", false, func(e *Env, slot int) func() string {
 		return func() string {
-			m, err := v3.NewEnvironmental().Decode(vec3[slot%len(vec3)])
+			m, err := v3.NewEnvironmental().Decode(vec3[e.K(slot)%len(vec3)])
 			if err != nil {
 				return "error: " + err.Error()
 			}
@@ -217,19 +230,19 @@ var Ops = []Op{
 	}},
 	{"v3 decode rejected", false, func(e *Env, slot int) func() string {
 		return func() string {
-			m, err := v3.NewEnvironmental().Decode(bad3[slot%len(bad3)])
+			m, err := v3.NewEnvironmental().Decode(bad3[e.K(slot)%len(bad3)])
 			return fmt.Sprint(m == nil, errStr(err))
 		}
 	}},
 	{"v3 decode rejected for an unsupported metric", false, func(e *Env, slot int) func() string {
 		return func() string {
-			in, fresh := unsup3[slot%len(unsup3)], ""
+			in, fresh := unsup3[e.K(slot)%len(unsup3)], ""
 			if FreshName != nil {
 				fresh = FreshName()
 				in = "CVSS:3.1/AV:A/AC:H/PR:L/UI:N/S:C/C:L/I:H/A:L/" + fresh + ":N"
 			}
 			m, err := v3.NewEnvironmental().Decode(in)
-			m2, err2 := v3.NewBase().Decode(unsupBase3[slot%len(unsupBase3)]) // a temporal / environmental name at the base decoder
+			m2, err2 := v3.NewBase().Decode(unsupBase3[e.K(slot)%len(unsupBase3)]) // a temporal / environmental name at the base decoder
 			res := fmt.Sprint(m == nil, errStr(err), m2 == nil, errStr(err2))
 			if fresh != "" {
 				res = strings.ReplaceAll(res, fresh, "<fresh name>")
@@ -265,7 +278,7 @@ var Ops = []Op{
 	}},
 	{"v3 report + ExportWithString", true, func(e *Env, slot int) func() string {
 		return func() string {
-			return export(report.NewEnvironmental(e.E3[slot], report.WithOptionsLanguage(language.Japanese)), slot)
+			return export(report.NewEnvironmental(e.E3[slot], report.WithOptionsLanguage(language.Japanese)), e.K(slot))
 		}
 	}},
 	{"v3 report + ExportWithString, same template in every thread", true, func(e *Env, slot int) func() string {
@@ -278,7 +291,7 @@ var Ops = []Op{
 	}},
 	{"v3 ExportWith(reader) on a report built before, one template per thread", true, func(e *Env, slot int) func() string {
 		return func() string {
-			r, err := e.Rep[slot].ExportWith(strings.NewReader(tmpls[slot%len(tmpls)]))
+			r, err := e.Rep[slot].ExportWith(strings.NewReader(tmpls[e.K(slot)%len(tmpls)]))
 			if err != nil {
 				return "error: " + err.Error()
 			}
@@ -311,7 +324,7 @@ var Ops = []Op{
 	}},
 	{"v2 decode accepted", false, func(e *Env, slot int) func() string {
 		return func() string {
-			m, err := v2.NewEnvironmental().Decode(vec2[slot%len(vec2)])
+			m, err := v2.NewEnvironmental().Decode(vec2[e.K(slot)%len(vec2)])
 			if err != nil {
 				return "error: " + err.Error()
 			}
@@ -321,19 +334,19 @@ var Ops = []Op{
 	}},
 	{"v2 decode rejected", false, func(e *Env, slot int) func() string {
 		return func() string {
-			m, err := v2.NewEnvironmental().Decode(bad2[slot%len(bad2)])
+			m, err := v2.NewEnvironmental().Decode(bad2[e.K(slot)%len(bad2)])
 			return fmt.Sprint(m == nil, errStr(err))
 		}
 	}},
 	{"v2 decode rejected for an unsupported metric", false, func(e *Env, slot int) func() string {
 		return func() string {
-			in, fresh := unsup2[slot%len(unsup2)], ""
+			in, fresh := unsup2[e.K(slot)%len(unsup2)], ""
 			if FreshName != nil {
 				fresh = FreshName()
 				in = "AV:N/AC:L/Au:N/C:N/I:N/A:C/" + fresh + ":N"
 			}
 			m, err := v2.NewEnvironmental().Decode(in)
-			m2, err2 := v2.NewBase().Decode(unsupBase2[slot%len(unsupBase2)])
+			m2, err2 := v2.NewBase().Decode(unsupBase2[e.K(slot)%len(unsupBase2)])
 			res := fmt.Sprint(m == nil, errStr(err), m2 == nil, errStr(err2))
 			if fresh != "" {
 				res = strings.ReplaceAll(res, fresh, "<fresh name>")
@@ -364,7 +377,7 @@ var bulkOps = []Op{
 		return func() string {
 			var b strings.Builder
 			for k := 0; k < 20; k++ {
-				m, err := v3.NewBase().Decode(bulkVec3(slot, k))
+				m, err := v3.NewBase().Decode(bulkVec3(e.K(slot), k))
 				if err != nil {
 					b.WriteString("error: " + err.Error() + ";")
 					continue
@@ -376,7 +389,7 @@ var bulkOps = []Op{
 	}},
 	{Name: "v3 base decode (one vector)", Make: func(e *Env, slot int) func() string {
 		return func() string {
-			m, err := v3.NewBase().Decode(bulkVec3(slot, 7))
+			m, err := v3.NewBase().Decode(bulkVec3(e.K(slot), 7))
 			if err != nil {
 				return "error: " + err.Error()
 			}
@@ -387,7 +400,7 @@ var bulkOps = []Op{
 		return func() string {
 			var b strings.Builder
 			for k := 0; k < 20; k++ {
-				m, err := v2.NewBase().Decode(bulkVec2(slot, k))
+				m, err := v2.NewBase().Decode(bulkVec2(e.K(slot), k))
 				if err != nil {
 					b.WriteString("error: " + err.Error() + ";")
 					continue
@@ -399,7 +412,7 @@ var bulkOps = []Op{
 	}},
 	{Name: "v2 base decode (one vector)", Make: func(e *Env, slot int) func() string {
 		return func() string {
-			m, err := v2.NewBase().Decode(bulkVec2(slot, 7))
+			m, err := v2.NewBase().Decode(bulkVec2(e.K(slot), 7))
 			if err != nil {
 				return "error: " + err.Error()
 			}
@@ -409,14 +422,14 @@ var bulkOps = []Op{
 	{Name: "v3 base report export x20, each reader drained after the next export", Make: func(e *Env, slot int) func() string {
 		return func() string {
 			var b strings.Builder
-			m, err := v3.NewBase().Decode(bulkVec3(slot, 3))
+			m, err := v3.NewBase().Decode(bulkVec3(e.K(slot), 3))
 			if err != nil {
 				return "error: " + err.Error()
 			}
 			rep := report.NewBase(m)
 			var prev io.Reader
 			for k := 0; k < 20; k++ {
-				r, err := rep.ExportWithString(fmt.Sprintf("%d/%d {{.Vector}} {{.BaseScore}}", slot, k))
+				r, err := rep.ExportWithString(fmt.Sprintf("%d/%d {{.Vector}} {{.BaseScore}}", e.K(slot), k))
 				if prev != nil {
 					x, _ := io.ReadAll(prev)
 					b.Write(x)
@@ -436,27 +449,27 @@ var bulkOps = []Op{
 	}},
 	{Name: "v3 decodes rejected at the first element (constructor and nil receiver)", Make: func(e *Env, slot int) func() string {
 		return func() string {
-			m, err := v3.NewEnvironmental().Decode([]string{"CVSS:3.1/X", "CVSS:3.0/Y:", "CVSS:3.1/:Z"}[slot%3])
+			m, err := v3.NewEnvironmental().Decode([]string{"CVSS:3.1/X", "CVSS:3.0/Y:", "CVSS:3.1/:Z"}[e.K(slot)%3])
 			var nb *v3.Base
-			m2, err2 := nb.Decode([]string{"CVSS:9/", "CVS:3.1/AV:N", "CVSS:3.1:1"}[slot%3])
+			m2, err2 := nb.Decode([]string{"CVSS:9/", "CVS:3.1/AV:N", "CVSS:3.1:1"}[e.K(slot)%3])
 			return fmt.Sprint(m == nil, errStr(err), m2 == nil, errStr(err2))
 		}
 	}},
 	{Name: "v2 decodes rejected at the first element (constructor and nil receiver)", Make: func(e *Env, slot int) func() string {
 		return func() string {
-			m, err := v2.NewEnvironmental().Decode([]string{"X", "Y:", ":Z"}[slot%3])
+			m, err := v2.NewEnvironmental().Decode([]string{"X", "Y:", ":Z"}[e.K(slot)%3])
 			var nb *v2.Base
-			m2, err2 := nb.Decode([]string{"AV:Q", "AV", "ZZ:N"}[slot%3])
+			m2, err2 := nb.Decode([]string{"AV:Q", "AV", "ZZ:N"}[e.K(slot)%3])
 			return fmt.Sprint(m == nil, errStr(err), m2 == nil, errStr(err2))
 		}
 	}},
 	{Name: "v3 base report export, reader drained after a pause", Make: func(e *Env, slot int) func() string {
 		return func() string {
-			m, err := v3.NewBase().Decode(bulkVec3(slot, 5))
+			m, err := v3.NewBase().Decode(bulkVec3(e.K(slot), 5))
 			if err != nil {
 				return "error: " + err.Error()
 			}
-			return export(report.NewBase(m), slot)
+			return export(report.NewBase(m), e.K(slot))
 		}
 	}},
 }
@@ -475,9 +488,14 @@ type Scenario struct {
 	Shared bool
 }
 
+const twinSuffix = " [distinct objects, same inputs]"
+
+// Twin: distinct objects, identical inputs in every thread (see Twins).
+func (s Scenario) Twin() bool { return strings.HasSuffix(s.Name, twinSuffix) }
+
 // Setup builds the fresh objects and thread bodies of one execution.
 func (s Scenario) Setup() (*Env, []func() string) {
-	e := NewEnv(len(s.Ops), s.Shared)
+	e := NewEnv(len(s.Ops), s.Shared, s.Twin())
 	for _, oi := range s.Ops {
 		if strings.Contains(Ops[oi].Name, "Export") {
 			e.WarmReports(s.Shared)
@@ -515,6 +533,36 @@ func Pairs() []Scenario {
 			}
 			out = append(out, Scenario{name + " [distinct objects]", []int{a, b}, false})
 		}
+	}
+	return out
+}
+
+// Twins: distinct objects, identical inputs in every thread — a||a for every operation of the pair
+// catalogue, every pair of a decode with a query / report / export of the same version, and
+// three threads of the same decode.  On the pinned tree nothing is keyed by input, so these add
+// nothing new; they exist for caches, intern tables and lazily filled entries whose fill or
+// publication races only show when two threads miss (or one fills and one hits) on ONE key.
+func Twins() []Scenario {
+	var out []Scenario
+	for a := range Ops {
+		if bulkNames[Ops[a].Name] {
+			continue
+		}
+		out = append(out, Scenario{Ops[a].Name + " || " + Ops[a].Name + twinSuffix, []int{a, a}, false})
+	}
+	for _, ver := range []string{"v3 ", "v2 "} {
+		d := opIndex(ver + "decode accepted")
+		for b := range Ops {
+			if b == d || bulkNames[Ops[b].Name] || !Ops[b].Receiver || !strings.HasPrefix(Ops[b].Name, ver) {
+				continue
+			}
+			out = append(out, Scenario{Ops[d].Name + " || " + Ops[b].Name + twinSuffix, []int{d, b}, false})
+		}
+		out = append(out, Scenario{Ops[d].Name + " x3" + twinSuffix, []int{d, d, d}, false})
+	}
+	for _, n := range []string{"v3 base decode (one vector)", "v2 base decode (one vector)", "v3 base report export, reader drained after a pause"} {
+		a := opIndex(n)
+		out = append(out, Scenario{n + " || the same" + twinSuffix, []int{a, a}, false})
 	}
 	return out
 }
